@@ -61,8 +61,10 @@ package verify
 //@   ensures result != nil
 //@   ensures[C01,C02] vfFn == result && vfRoots == opts.RootsOfTrust && vfNow == opts.Now && vfEndorsement == opts.Endorsement
 
+// C16: a download is only ever issued for the object named after the report's full-length (48-byte) measurement.
 //@ func SNPFamilyValidateFunc$1
 //@   modifies pbsrc, pbok, lastGot
+//@   atcall Get requires[C16] len(measurement) == 48 && p1 == tcbURL(sevObjectName(sevPrefix(familyID), val(measurement)))
 //@   requires opts != nil
 //@   sweep[C07]
 //@   ensures[C01] err == nil && old(opts.Endorsement) != nil ==> authentic(old(val(opts.Endorsement.SerializedUefiGolden)), old(val(opts.Endorsement.Signature)), old(opts.RootsOfTrust), old(opts.Now))
